@@ -320,7 +320,8 @@ func (tf *typeFormatter) formatEnumValue(obj ast.Object, val any) string {
 }
 
 func (tf *typeFormatter) objectNeedsCustomSerializer(obj ast.Object) bool {
-	if !tf.config.GenerateBuilders || tf.config.SkipRuntime {
+	// serializers are only generated alongside the JSON marshalling code
+	if !tf.config.GenerateBuilders || tf.config.SkipRuntime || !tf.config.GenerateJSONMarshaller {
 		return false
 	}
 	if obj.Type.HasHint(ast.HintDisjunctionOfScalars) {
@@ -332,7 +333,8 @@ func (tf *typeFormatter) objectNeedsCustomSerializer(obj ast.Object) bool {
 }
 
 func (tf *typeFormatter) objectNeedsCustomDeserializer(obj ast.Object) bool {
-	if !tf.config.GenerateBuilders || tf.config.SkipRuntime {
+	// deserializers are only generated alongside the JSON marshalling code
+	if !tf.config.GenerateBuilders || tf.config.SkipRuntime || !tf.config.GenerateJSONMarshaller {
 		return false
 	}
 	if objectNeedsCustomDeserialiser(tf.context, obj) {
